@@ -281,7 +281,14 @@ fn no_signature_payload(sig_idx: usize, keep: usize, fill: &[u8], tail: &[u8]) -
 pub fn e2e_strategy() -> impl Strategy<Value = E2e> {
     let valid = (app_req(), any::<bool>()).prop_map(|(a, tcp)| (Hex(a.bytes(tcp)), format!("valid:{}", a.kind()), tcp));
     let nosig = (any::<usize>(), any::<usize>(), vec(any::<u8>(), 4), vec(any::<u8>(), 0..60), any::<bool>()).prop_map(|(s, k, f, t, tcp)| (Hex(no_signature_payload(s, k, &f, &t)), "no-signature".to_string(), tcp));
-    (scenario_quiet(Fam::Any), port(), port(), prop_oneof![3 => valid, 2 => nosig]).prop_map(|(scn, sport, dport, (payload, kind, tcp))| E2e { scn, sport, dport, tcp, payload, kind })
+    // a complete valid request behind a short junk prefix (empty lines, NUL, blanks, random bytes):
+    // the reference automaton decides what (if anything) its leading bytes complete
+    let prefixed = (app_req(), any::<bool>(), prop_oneof![2 => Just(b"\r\n".to_vec()), 1 => Just(b"\n".to_vec()), 1 => Just(b"\r".to_vec()), 1 => Just(b" ".to_vec()), 1 => Just(vec![0u8]), 1 => Just(b"\r\n\r\n".to_vec()), 2 => vec(any::<u8>(), 1..4)]).prop_map(|(a, tcp, pre)| {
+        let mut v = pre;
+        v.extend_from_slice(&a.bytes(tcp));
+        (Hex(v), "prefixed-request".to_string(), tcp)
+    });
+    (scenario_quiet(Fam::Any), port(), port(), prop_oneof![3 => valid, 2 => nosig, 1 => prefixed]).prop_map(|(scn, sport, dport, (payload, kind, tcp))| E2e { scn, sport, dport, tcp, payload, kind })
 }
 
 fn expected_responder(kind: &str, tcp: bool) -> Option<Responder> {
